@@ -343,3 +343,140 @@ Print Assumptions C14H_join_writes_only_initial_partial.
 Print Assumptions C14H_bus_carries_no_transient.
 Print Assumptions C14H_replica_step_partial.
 Print Assumptions C14H_replica_after_notice_partial.
+
+(* ------------------------------------------------------------------ history level (proofs/Hub_transient_hist.v) *)
+(* The replica of a session: ghost state computed from the outputs only (Hub_transient_nr.gout: a hello reply
+   binds the connection to the session, room / transient messages written to a bound connection are applied with
+   tapply = corr/Hub_preds.apply_trans), replayed over the pending queue of a session that has no connection.
+   "Equals" is literal equality of the association lists (hence the same lookup for every key).
+   Semantics: Hub_wf.run - one operation at a time, queued publications delivered in any order. *)
+From Verif Require Import proofs.Hub_pending proofs.Hub_isolation proofs.Hub_transient_bus proofs.Hub_transient_nr proofs.Hub_transient_hist.
+
+(* T2, one step, for every state with the invariants of reachable states: a change of a room's data (client request
+   or delivered room request) keeps "the replica of every member, replayed over its queue, is the data of its room" *)
+Theorem C14H_replica_kept_by_change : forall h g k r del key val, WF h -> Inv h -> RI h g -> room_of h k = Some r ->
+  RI (fst (transient_update h k r del key val)) (gouts g (snd (transient_update h k r del key val))).
+Proof. exact ri_transient_update. Qed.
+
+(* T2 over a resume: the hello that resumes a session keeps the invariant - the replica at the time of the cut,
+   continued by what the resume flushes, is the data of the room (a queue with a closing message: the session is
+   closed).  Assumes: no session is attached to the connection (Bij gives it in a step).  That no queue holds a hello reply
+   is part of RI (ri_hf). *)
+Theorem C14H_replica_over_resume_partial : forall h g c cn i, Inv h -> RI h g ->
+  (forall y t, get_sess h y = Some t -> s_conn t <> Some c) ->
+  RI (fst (do_hello h c cn (HResume i))) (gouts g (snd (do_hello h c cn (HResume i)))).
+Proof. exact ri_resume. Qed.
+
+(* T2, the step of the induction over histories, for the covered operations (every operation except OJoin,
+   OInternal and the delivery of a publication that is not a transient room request) *)
+Theorem C14H_replica_step_covered_partial : forall h g o, WF h -> Inv h -> Bij h -> BusNT h -> RI h g -> covered h o ->
+  RI (fst (step h o)) (gouts g (snd (step h o))).
+Proof. exact ri_step. Qed.
+
+(* T2 for histories, partial: from any state with the invariants of reachable states in which the replicas are right,
+   every continuation made of covered operations - deliveries in any order - keeps them right *)
+Theorem C14H_replica_converges_history_partial : forall ops h g, WF h -> Inv h -> TI h -> BusNT h -> RI h g -> covered_hist h ops ->
+  let st := grun (h, g) ops in WF (fst st) /\ Inv (fst st) /\ RI (fst st) (snd st).
+Proof. exact ri_run. Qed.
+
+(* what RI gives for one member: its room exists, the replica replayed over the queue is (room, data of the room);
+   with a connection the queue is empty and the replica itself is the data *)
+Theorem C14H_replica_invariant_means : forall h g, WF h -> Inv h -> RI h g -> replica_ok h g.
+Proof. exact ri_replica_ok. Qed.
+
+(* the shape of the bus in every reachable state: no queued publication carries a hello reply or a transient message,
+   a queued room message SRoom r travels on the subject of room r only *)
+Theorem C14H_bus_shape : forall limits gated ops, BusOK (run (init limits gated) ops).
+Proof. exact busok_reachable. Qed.
+
+(* the replica function is the one the differential check applies to the implementation's observations *)
+Theorem C14H_replica_is_apply_trans : forall v m, tapply v m = Hub_preds.apply_trans v m.
+Proof. exact tapply_is_apply_trans. Qed.
+
+Print Assumptions C14H_replica_kept_by_change.
+Print Assumptions C14H_replica_over_resume_partial.
+Print Assumptions C14H_replica_step_covered_partial.
+Print Assumptions C14H_replica_converges_history_partial.
+Print Assumptions C14H_replica_invariant_means.
+Print Assumptions C14H_bus_shape.
+Print Assumptions C14H_replica_is_apply_trans.
+
+(* ------------------------------------------------------------------ every history (proofs/Hub_transient_run.v, _join.v, _initial.v) *)
+From Verif Require Import proofs.Hub_transient_join proofs.Hub_transient_initial proofs.Hub_transient_run.
+
+(* T2 for EVERY history of operations from the initial state, async semantics (one operation at a time, queued
+   publications delivered in any order; nothing assumed about the bus), no hypothesis: the ghost (g_bind, g_rep) is
+   computed from the outputs only (grun applies gouts to the outputs of every step).  For every live non-virtual
+   session x that is in a room k: the room exists, and the replica of x, replayed over the pending queue of x, is
+   (number of the room, data of the room) - equal as association lists; if x has a connection, its queue is empty and
+   the replica itself is the data. *)
+Theorem C14H_replica_converges_history : forall limits gated ops x s k,
+  let st := grun (init limits gated, g0) ops in
+  fst st = run (init limits gated) ops /\
+  (get_sess (fst st) x = Some s -> is_virtual (s_kind s) = false -> s_room s = Some k ->
+   exists r d, room_of (fst st) k = Some r /\ r_transient r = d /\
+               replayT (s_pending s) (g_rep (snd st) x) = Some (snd k, d) /\
+               (forall c, s_conn s = Some c -> s_pending s = [] /\ g_rep (snd st) x = Some (snd k, d))).
+Proof. exact replica_converges_history_explicit. Qed.
+
+(* the step of the induction, every operation: RI is kept under the invariants of reachable states *)
+Theorem C14H_replica_step : forall h g o, WF h -> Inv h -> TI h -> BusNT h -> BusOK h -> RI h g ->
+  RI (fst (step h o)) (gouts g (snd (step h o))).
+Proof. exact ri_step_all. Qed.
+
+(* the invariant in every reachable state *)
+Theorem C14H_replica_invariant_history : forall limits gated ops,
+  RI (run (init limits gated) ops) (snd (grun (init limits gated, g0) ops)).
+Proof. exact ri_reachable. Qed.
+
+(* what a resume flushes was queued for the room the session is in: in every reachable state the queue of a
+   disconnected member, replayed over its replica at the time of the cut, gives the data of its room *)
+Theorem C14H_queue_replays_to_data : forall limits gated ops x s k,
+  let st := grun (init limits gated, g0) ops in
+  get_sess (fst st) x = Some s -> is_virtual (s_kind s) = false -> s_room s = Some k -> s_conn s = None ->
+  exists r, room_of (fst st) k = Some r /\ replayT (s_pending s) (g_rep (snd st) x) = Some (snd k, r_transient r).
+Proof. exact queued_notices_replay_to_data. Qed.
+
+(* `initial` goes to the joiner, once: after every history, the transient messages a join by connection c writes
+   (trans_outs: all of them, with their connections, in order) are none, or exactly one, `initial d`, to c, with d
+   not empty and d the data of the joined room (b, rn) in the state after the step, written after the room reply *)
+Theorem C14H_join_initial_once : forall limits gated ops c rn rs rep,
+  let R := step (run (init limits gated) ops) (OJoin c rn rs rep) in
+  trans_outs (snd R) = [] \/
+  exists b d r', d <> [] /\ trans_outs (snd R) = [(c, TInit d)] /\ room_of (fst R) (b, rn) = Some r' /\ r_transient r' = d /\
+                 exists pre post, snd R = pre ++ ToConn c (SRoom rn) :: post /\ trans_outs pre = [].
+Proof. exact join_initial_history. Qed.
+
+(* non-vacuity: computed histories (proofs/Hub_transient_run.v) *)
+Example C14H_hist_join_gets_data :
+  snd (step (fst (st_of [OConnect 1 0; OConnect 2 0; OHello 1 (HV1 0 1 false); OHello 2 (HV1 0 2 false);
+                         OJoin 1 1 1 (RepOk None 0); OTransient 1 0 1 2])) (OJoin 2 1 2 (RepOk None 0))) =
+  [ToBackend (0, 1, 0, 1, 1000002, 1); ToConn 2 (SRoom 1); ToConn 2 (STransient (TInit [(1, 2)]))].
+Proof. exact hist_join_gets_data. Qed.
+Example C14H_hist_cut_two_changes :
+  data_of (st_of hist_ops2) (0, 1) = Some [(1, 5)] /\
+  g_rep (snd (st_of hist_ops2)) 2 = Some (1, [(1, 2); (2, 3)]) /\
+  queue_of (st_of hist_ops2) 2 = [STransient (TSet 1 5 (Some 2)); STransient (TRemove 2 (Some 3))] /\
+  replayT (queue_of (st_of hist_ops2) 2) (g_rep (snd (st_of hist_ops2)) 2) = Some (1, [(1, 5)]).
+Proof. exact hist_cut_queue. Qed.
+Example C14H_hist_resume :
+  snd (step (fst (st_of (hist_ops2 ++ [OConnect 3 0]))) (OHello 3 (HResume (IdPriv 2)))) =
+    [ToConn 3 (SHello 2 2); ToConn 3 (STransient (TSet 1 5 (Some 2))); ToConn 3 (STransient (TRemove 2 (Some 3)))] /\
+  g_rep (snd (st_of hist_ops3)) 2 = Some (1, [(1, 5)]) /\ queue_of (st_of hist_ops3) 2 = [] /\
+  data_of (st_of hist_ops3) (0, 1) = Some [(1, 5)].
+Proof. exact hist_resume. Qed.
+Example C14H_hist_switch_of_rooms :
+  g_rep (snd (st_of (hist_ops1 ++ [OJoin 2 2 2 (RepOk None 0)]))) 2 = Some (2, []) /\
+  data_of (st_of (hist_ops1 ++ [OJoin 2 2 2 (RepOk None 0)])) (0, 2) = Some [] /\
+  g_rep (snd (st_of (hist_ops1 ++ [OJoin 2 2 2 (RepOk None 0); OTransient 1 0 1 7; OJoin 2 1 2 (RepOk None 0)]))) 2 = Some (1, [(1, 7); (2, 3)]) /\
+  data_of (st_of (hist_ops1 ++ [OJoin 2 2 2 (RepOk None 0); OTransient 1 0 1 7; OJoin 2 1 2 (RepOk None 0)])) (0, 1) = Some [(1, 7); (2, 3)].
+Proof. exact hist_switch. Qed.
+Example C14H_hist_hypotheses_satisfiable :
+  exists s, get_sess (fst (st_of hist_ops2)) 2 = Some s /\ is_virtual (s_kind s) = false /\ s_room s = Some (0, 1) /\ s_conn s = None.
+Proof. exact hist_theorem_instance. Qed.
+
+Print Assumptions C14H_replica_converges_history.
+Print Assumptions C14H_replica_step.
+Print Assumptions C14H_replica_invariant_history.
+Print Assumptions C14H_queue_replays_to_data.
+Print Assumptions C14H_join_initial_once.
